@@ -229,9 +229,10 @@ def grantBound (c : Controller.Cfg) : Nat :=
 def runCtl (c : Controller.Cfg) (s : Controller.State) (inputs : List (Array Controller.BankIn)) : Controller.State :=
   inputs.foldl (fun st i => (Controller.step c st i).1) s
 
-/-- the bounded-liveness statement the deadline rests on — **not proved** (composed liveness of bank
-machines, choosers and FSM); the check measures the latency on every implementation trace against
-`grantBound`: once the refresher waits for the bank machines, the multiplexer reaches REFRESH within
+/-- the bounded-liveness statement with the *tight* constant `grantBound` — **not proved for this constant**; proved with
+the explicit (larger) bound `CtlLive.psiMax` as `C04.refresh_grant_bound` in Props/C04_Controller.lean (potential-function
+proof over bank machines, choosers, timing gates and FSM).  The check measures the latency on every implementation trace
+against `grantBound` and against `psiMax`: once the refresher waits for the bank machines, the multiplexer reaches REFRESH within
 `grantBound c` cycles whatever the ports do. -/
 def refresh_grant_bound_full : Prop :=
   ∀ (c : Controller.Cfg) (pre : List (Array Controller.BankIn)),
